@@ -178,6 +178,52 @@ def run(P, tier="quick"):
                                "the sibling index look-ups %s use different port maps (%s): rows and columns of the same cell are "
                                "mapped inconsistently when the port map is not in ascending order" %
                                (names, ", ".join(sorted(maps))), v0.line))
+    # MAPPED-INDEX: inside a loop whose counter i has a mapped companion (full = cond ? map[i] - 1 : i), the arrays of
+    # the full port grid (those subscripted by some mapped companion) are subscripted by the companion, never by raw i
+    mapped = {}          # raw index decl -> [(mapped VarDecl, loop)]
+    mapped_decls = set()
+    for gid, items in groups.items():
+        for (v, mp, idx, e) in items:
+            refs = [m for m in e.walk() if m.k == "DeclRefExpr" and m.refname == idx]
+            if not refs:
+                continue
+            loop = None
+            for a_ in v.ancestors():
+                if a_.k == "ForStmt" and loop is None:
+                    init = a_.kids[0]
+                    if init is not None and any(m.k == "VarDecl" and m.get("decl") == refs[0].refdecl for m in init.walk()):
+                        loop = a_
+            if loop is not None:
+                mapped.setdefault(refs[0].refdecl, []).append((v, loop))
+                mapped_decls.add(v.get("decl"))
+    full_arrays = set()
+    subs = []
+    for n in fc.walk():
+        if n.k == "ArraySubscriptExpr":
+            b, i = n.kids[0].strip(), n.kids[1].strip()
+            if b.k == "DeclRefExpr" and b.refkind == "local" and i.k == "DeclRefExpr":
+                subs.append((n, b, i))
+                if i.refdecl in mapped_decls:
+                    full_arrays.add(b.refdecl)
+    nmi = 0
+    for (n, b, i) in subs:
+        if b.refdecl not in full_arrays:
+            continue
+        if i.refdecl in mapped_decls:
+            nmi += 1
+            continue
+        for (v, loop) in mapped.get(i.refdecl, []):
+            if loop.is_ancestor_of(n):
+                nmi += 1
+                R.violated(Finding("R31", PROPS | {"C20"}, FILE, "_vnacal_new_add_common", "mapped-index:%s[%s]" % (b.refname, i.refname),
+                                   "%s[] is indexed in the full port grid (elsewhere by %s) but here by the raw counter %s of the "
+                                   "caller's matrix although %s = %s is in scope: with an abbreviated matrix or a permuted port map "
+                                   "the wrong row/column is marked" % (b.refname, v.get("name"), i.refname, v.get("name"),
+                                                                      v.kids[0].text()[:60]), n.line))
+                break
+    if nmi >= 4 and not any(f_.anchor.startswith("mapped-index") for f_ in R.findings):
+        R.ok("R31|%s|_vnacal_new_add_common|mapped-index" % FILE, PROPS | {"C20"})
+    R.counts["mapped_index_subscripts"] = nmi
     if nrc < 1:
         raise AnalysisBroken("_vnacal_new_add_common: no paired row/column port-map look-ups found")
     R.counts["rowcol_lookup_groups"] = nrc
